@@ -34,6 +34,7 @@ func (r Request) Key() string {
 type RPCError struct {
 	Code    int    `json:"code"`
 	Message string `json:"message"`
+	Data    any    `json:"data,omitempty"`
 }
 
 // Response is one element of the reply, still as a tree.
